@@ -57,6 +57,8 @@ class C04(RunProp):
             cfgs = [{}]
             if seq["steps"] > 0 and not c["loop"].get("separateEmitter") and not c["loop"].get("twoAcc"):
                 cfgs.append({"maxIter": max(1, seq["steps"] + rng.choice([-2, -1, 0, 0, 1, 5])), "errMode": rng.choice(["raise", "continue"])})
+                if rng.random() < 0.15:
+                    cfgs.append({"maxIter": 0, "errMode": rng.choice(["raise", "continue"])})      # a budget of zero steps is a budget, not "the default"
             for cfg in cfgs:
                 for runner in ("sync", "async"):
                     yield {"program": c["program"], "values": c["values"], "cfg": cfg, "runner": runner, "loop": c["loop"]}
